@@ -223,9 +223,24 @@ func stanzaBody(kind string, maxChildren int) nd.Body {
 		}
 		doc := stanzaDoc(kind, typ, children, from)
 		eofWithLast := c.Choose(2, "reader-eof-with-last-token") == 1
-		c.Note("registered=%v stanza=%s read-program=%d eof-with-last-token=%v", regList, doc, prog, eofWithLast)
+		// the first payload handler that runs feeds another stanza (a forwarded
+		// or archived copy it unpacked) through the same mux before it reads on
+		reenter := kind != "iq" && c.Choose(2, "handler-re-enters-the-mux") == 1
+		c.Note("registered=%v stanza=%s read-program=%d eof-with-last-token=%v re-enter=%v", regList, doc, prog, eofWithLast, reenter)
 
 		var calls []call
+		var mref *mux.ServeMux
+		depth, reentered := 0, false
+		var nestedPanic *nd.Panic
+		nest := func() {
+			if !reenter || reentered || depth > 0 {
+				return
+			}
+			reentered = true
+			depth++
+			_, nestedPanic = run(mref, stanzaDoc(kind, typ, []int{1, 0, 3}, ""), &recEnc{}, false)
+			depth--
+		}
 		var opts []mux.Option
 		for ti := 0; ti < 2; ti++ {
 			for _, p := range payloadPats {
@@ -243,12 +258,24 @@ func stanzaBody(kind string, maxChildren int) nd.Body {
 					}))
 				case "message":
 					opts = append(opts, mux.MessageFunc(stanza.MessageType(types[ti]), p, func(msg stanza.Message, t xmlstream.TokenReadEncoder) error {
+						if depth > 0 {
+							// a handler invoked for the nested stanza: reads it all
+							consume(t, 1<<20)
+							return nil
+						}
+						nest()
 						toks, errs := consume(t, wants(prog, len(calls)))
 						calls = append(calls, call{label: l, read: toks, errs: errs})
 						return nil
 					}))
 				case "presence":
 					opts = append(opts, mux.PresenceFunc(stanza.PresenceType(types[ti]), p, func(pr stanza.Presence, t xmlstream.TokenReadEncoder) error {
+						if depth > 0 {
+							// a handler invoked for the nested stanza: reads it all
+							consume(t, 1<<20)
+							return nil
+						}
+						nest()
 						toks, errs := consume(t, wants(prog, len(calls)))
 						calls = append(calls, call{label: l, read: toks, errs: errs})
 						return nil
@@ -257,8 +284,12 @@ func stanzaBody(kind string, maxChildren int) nd.Body {
 			}
 		}
 		m := mux.New(ns, opts...)
+		mref = m
 		enc := &recEnc{}
 		err, p := run(m, doc, enc, eofWithLast)
+		if p == nil {
+			p = nestedPanic
+		}
 		res := nd.Result{Outcome: kind}
 		if len(regList) > 1 && n > 0 {
 			res.NonTrivial = fmt.Sprintf("%v|%s", regList, doc)
@@ -268,7 +299,7 @@ func stanzaBody(kind string, maxChildren int) nd.Body {
 			return res
 		}
 		fail := func(sig, f string, a ...any) nd.Result {
-			res.Violation = &nd.Violation{Sig: "mux:" + kind + ":" + sig, Msg: fmt.Sprintf("registered=%v stanza=%s read-program=%d eof-with-last-token=%v: ", regList, doc, prog, eofWithLast) + fmt.Sprintf(f, a...)}
+			res.Violation = &nd.Violation{Sig: "mux:" + kind + ":" + sig, Msg: fmt.Sprintf("registered=%v stanza=%s read-program=%d eof-with-last-token=%v re-enter=%v: ", regList, doc, prog, eofWithLast, reenter) + fmt.Sprintf(f, a...)}
 			return res
 		}
 		allToks, _ := xu.Tokens(xml.NewDecoder(strings.NewReader(doc)))
